@@ -5,6 +5,9 @@ import json, sys
 TECH = "bounded exhaustive enumeration (explicit-state model checking of the real code against a Go reference model)"
 CHECKS = {
  # id: (design section, technique, level text, level note)
+ "C01": ("2/C01", TECH + ": all token strings / byte strings up to a length bound, all single edits of seed sources, all operator x operand pairs, all (function, arity) x receivers x argument tuples, all paths of the schema-covering family x functions, patch operations x paths x values x indexes; totality oracle with panic capture and a per-case hang watchdog",
+         "every case of the finite spaces is executed on the real Compile / Evaluate / EvaluateAs* / patch entry points inside recover, in worker sub-processes with a 45 s no-progress watchdog, so a panic, a fatal runtime error or a non-terminating call is attributed to one case",
+         "inputs outside the alphabets and pools are not covered; nil options / typed-nil elements / nil entries of the input slice are outside the domain as the property says"),
  "C02": ("2/C02", TECH + ": every name path, prefix and index spelling of the jsonformat tree of every resource of a schema-covering family (all 146 types, every field, each-choice covering)",
          "every schema position (message type x field x list/choice shape x depth) is realised in a generated resource; every path of its JSON tree is evaluated in four spellings on the real Evaluate and compared, by pointer identity and in document order, with the elements jsonformat rendered there; foreign and proto-only names must fail with ErrInvalidField",
          "resources nested deeper than the depth bound and values outside the generator pools are not covered; jsonformat and the proto descriptors are trusted"),
